@@ -1,7 +1,7 @@
 use crate::optimizer::PassAction;
 use boa_ast::{
-    Expression,
-    expression::literal::LiteralKind,
+    Expression, Span, Spanned,
+    expression::literal::{Literal, LiteralKind},
     statement::{If, Statement},
     visitor::{VisitWith, Visitor},
 };
@@ -75,6 +75,33 @@ impl DeadCodeElimination {
         visitor.found
     }
 
+    /// The statement left in place of an eliminated one.
+    ///
+    /// The completion value of an `if` or of a loop that runs nothing is `undefined`, not empty,
+    /// so an empty statement would change the value of the enclosing script or `eval`.
+    fn eliminated(span: Span) -> Statement {
+        Statement::Expression(Literal::new(LiteralKind::Undefined, span).into())
+    }
+
+    /// Checks that the completion value of a statement can't be empty, i.e. that an `if` can
+    /// be replaced by that branch.
+    fn completion_never_empty(stmt: &Statement) -> bool {
+        matches!(stmt, Statement::Expression(_) | Statement::If(_))
+    }
+
+    /// The branch taken by an `if` whose other parts are dead.
+    fn taken_branch(if_stmt: &If, branch: &Statement) -> Statement {
+        if Self::completion_never_empty(branch) {
+            branch.clone()
+        } else {
+            Statement::If(If::new(
+                Literal::new(true, if_stmt.cond().span()).into(),
+                branch.clone(),
+                None,
+            ))
+        }
+    }
+
     pub(crate) fn try_eliminate_if(if_stmt: &If) -> PassAction<Statement> {
         let Some(cond_value) = Self::as_literal_bool(if_stmt.cond()) else {
             return PassAction::Keep;
@@ -86,14 +113,17 @@ impl DeadCodeElimination {
             {
                 return PassAction::Keep;
             }
-            PassAction::Replace(if_stmt.body().clone())
+            if if_stmt.else_node().is_none() && !Self::completion_never_empty(if_stmt.body()) {
+                return PassAction::Keep;
+            }
+            PassAction::Replace(Self::taken_branch(if_stmt, if_stmt.body()))
         } else {
             if Self::contains_hoisted_declarations(if_stmt.body()) {
                 return PassAction::Keep;
             }
             match if_stmt.else_node() {
-                Some(alt) => PassAction::Replace(alt.clone()),
-                None => PassAction::Replace(Statement::Empty),
+                Some(alt) => PassAction::Replace(Self::taken_branch(if_stmt, alt)),
+                None => PassAction::Replace(Self::eliminated(if_stmt.cond().span())),
             }
         }
     }
@@ -109,7 +139,7 @@ impl DeadCodeElimination {
             if Self::contains_hoisted_declarations(while_loop.body()) {
                 return PassAction::Keep;
             }
-            return PassAction::Replace(Statement::Empty);
+            return PassAction::Replace(Self::eliminated(while_loop.condition().span()));
         }
 
         PassAction::Keep
@@ -137,7 +167,7 @@ impl DeadCodeElimination {
                 return PassAction::Keep;
             }
 
-            return PassAction::Replace(Statement::Empty);
+            return PassAction::Replace(Self::eliminated(condition.span()));
         }
 
         PassAction::Keep
